@@ -10,27 +10,40 @@ from .itmd_ir import canonical, show, space_of, Poly, tensor_factor, _Typing, _f
 from .itmd_sx import registry_sx as registry, definition_sx, substituted, builder
 
 EXPLANATION = (
-    "The body of every _build_expanded_itmd is interpreted symbolically (formula IR: index "
-    "variables, eri/fock/orb_energy factors, calls of other intermediates, Rational prefactors, "
-    "+ - * /, permute, subs) and brought into a normal form modulo renaming of contracted indices "
-    "and the declared (anti)symmetry of every factor. R12a: index typing (arity and position-wise "
-    "space of every factor; each target index exactly once and each other index exactly twice per "
-    "term outside the denominator; denominators carry target indices only; declared target and "
-    "contracted tuples equal what the formula uses). R12b: _build_tensor (slices partition the "
-    "indices; amplitudes virtual upper / occupied lower; order digit equals _order; class name "
-    "encodes rank/order/space). R12d: every permutational symmetry declared for the tensor "
-    "(antisymmetry inside same-space index groups, bra-ket symmetry) holds for the normal form of "
-    "the definition, assuming the referenced intermediates have their declared symmetry. R12g: "
-    "definitions that expand an intermediate with hidden contracted indices minimise with "
-    "substitute_contracted() and recompute the contracted tuple from atoms(Index) - target. R12i: "
-    "perturbation order of every term equals _order (maximum for residuals). R12h: the normal form "
-    "equals the reference normal form recorded for the pinned tree (cross-checked once against the "
-    "derived amplitudes/densities/residuals).")
+    "Everything is decided on values obtained by abstract evaluation (sa.symex) of intermediates.py, nothing on the "
+    "spelling of the source. Class table: the class attributes of every subclass of RegisteredIntermediate are evaluated, "
+    "_build_tensor (own or inherited) is evaluated on the default index names with the tensor constructors of "
+    "sympy_objects.py as vocabulary (arguments bound to the parameter names of __new__) and the class table is read off "
+    "the constructed tensor value. Definitions: _build_expanded_itmd is evaluated for fully_expand=False and =True on "
+    "model values (index names; polynomials of eri/fock/orb_energy factors, references of other intermediates, Rational "
+    "prefactors, orbital energy denominators) through helpers, closures, loops, comprehensions, temporaries; eri/fock/"
+    "orb_energy are evaluated through down to the tensor constructors; tensor()/expand_itmd() of a referenced intermediate "
+    "are modelled by their contract (validated indices; cached base expression with the targets substituted and every "
+    "declared contracted index replaced by a fresh one, undeclared ones leak). The polynomials are brought into a normal "
+    "form modulo renaming of contracted indices and the declared (anti)symmetry of every factor. R12c: eri/fock/orb_energy "
+    "build <pq||rs> (antisymmetric 2/2), f_pq (1/1), e_p and refuse any other number of indices. R12a: index typing of "
+    "the once expanded variant (arity and position-wise space of every factor; each target index exactly once and each "
+    "other index exactly twice per term outside the denominator; denominators carry target indices only; declared target "
+    "and contracted tuples equal what the formula uses). R12b: _build_tensor (index groups partition the indices; "
+    "amplitudes virtual upper / occupied lower; order digit equals _order; class name encodes rank/order/space). R12d: "
+    "every permutational symmetry declared for the tensor (symmetry/antisymmetry inside same-space index groups, bra-ket "
+    "(anti)symmetry) holds for the normal form of the definition, assuming the referenced intermediates have their "
+    "declared symmetry. R12g: the fully expanded variant (the library default) is well formed and the contracted tuple it "
+    "returns is exactly the set of summation indices of the cached expression it returns, including the indices brought "
+    "in by the expanded intermediates. R12j: the fully expanded variant equals the once expanded variant with the fully "
+    "expanded definitions of the referenced intermediates inserted (residuals: equals the once expanded variant). R12i: "
+    "perturbation order of every term equals _order (maximum for residuals). R12h: the normal form equals the reference "
+    "normal form recorded for the pinned tree (cross-checked once against the derived amplitudes/densities/residuals).")
 ASSUMPTIONS = [
     "real orbitals (<pq||rs> = <rs||pq>, f_pq = f_qp) as required by the factorisation routines",
     "the identity of each reference formula with the RSPT quantity was confirmed once by running the library "
     "(definition vs GroundState derivation); the static check decides agreement with that reference",
     "R12f (declared spin blocks) is computed by the library at run time and not decided",
+    "vocabulary with assumed contract (not looked into here): get_symbols, the tensor constructors of sympy_objects.py, "
+    "tensor_names, RegisteredIntermediate.tensor/expand_itmd/validate_indices (C11), Expr(..).substitute_contracted(), "
+    ".permute/.subs/.copy/.expand/.sympy/.atoms(Index), sort_idx_canonical, sympy Rational/S/Pow",
+    "a definition that uses constructs outside the formula IR (foreign tensors, spin indices, sympy functions other than "
+    "the vocabulary) is an ANALYSIS-ERROR, never a guess",
 ]
 
 ORACLE = os.path.join(os.path.dirname(os.path.dirname(os.path.abspath(__file__))), "oracle", "itmd_normal_forms.json")
@@ -136,20 +149,20 @@ def r12d(ctx, defs):
         poly, target, _ = d
         base = canonical(poly, target, reg)
         ref = f"intermediates:{name}._build_expanded_itmd"
+        sgn = 1 if info["tensor_kind"] == "SymmetricTensor" else -1
+        word = "symmetric" if sgn == 1 else "antisymmetric"
         for grp in info["groups"]:
-            if info["tensor_kind"] == "SymmetricTensor":
-                continue
             for a, b in zip(grp, grp[1:]):
                 if space_of(a) != space_of(b):
                     continue
                 n += 1
                 perm = canonical(poly.permute((a, b)), target, reg)
-                neg = {k: -v for k, v in base.items()}
-                ctx.check(rule, info["build"], perm == neg, f"{name}: antisymmetric under P_{a}{b}",
-                          f"{name}: the tensor is declared antisymmetric in ({a},{b}) but the definition is not: "
-                          f"P_{a}{b} X + X has {len(_diff(perm, neg))} non-cancelling term(s), e.g. {_example(perm, neg)}", fn=ref,
-                          key=f"{name} P_{a}{b}")
-        if info["bra_ket_sym"] == 1 and len(info["groups"]) == 2 and len(info["groups"][0]) == len(info["groups"][1]):
+                want = {k: sgn * v for k, v in base.items()}
+                ctx.check(rule, info["build"], perm == want, f"{name}: {word} under P_{a}{b}",
+                          f"{name}: the tensor is declared {word} in ({a},{b}) but the definition is not: "
+                          f"P_{a}{b} X {'-' if sgn == 1 else '+'} X has {len(_diff(perm, want))} non-cancelling term(s), e.g. {_example(perm, want)}",
+                          fn=ref, key=f"{name} P_{a}{b}")
+        if info["bra_ket_sym"] in (1, -1) and len(info["groups"]) == 2 and len(info["groups"][0]) == len(info["groups"][1]):
             up, lo = info["groups"]
             if all(space_of(x) == space_of(y) for x, y in zip(up, lo)):
                 n += 1
@@ -157,9 +170,14 @@ def r12d(ctx, defs):
                 for x, y in zip(up, lo):
                     mp[x], mp[y] = y, x
                 sw = canonical(poly.rename(mp), target, reg)
-                ctx.check(rule, info["build"], sw == base, f"{name}: symmetric under bra-ket exchange",
-                          f"{name}: the tensor is declared bra-ket symmetric but the definition changes under {up}<->{lo}: "
-                          f"{_example(sw, base)}", fn=ref, key=f"{name} braket")
+                want = {k: info["bra_ket_sym"] * v for k, v in base.items()}
+                bk = "symmetric" if info["bra_ket_sym"] == 1 else "antisymmetric"
+                ctx.check(rule, info["build"], sw == want, f"{name}: {bk} under bra-ket exchange",
+                          f"{name}: the tensor is declared bra-ket {bk} but the definition does not behave so under {up}<->{lo}: "
+                          f"{_example(sw, want)}", fn=ref, key=f"{name} braket")
+        elif info["bra_ket_sym"] not in (0, 1, -1):
+            ctx.bad(rule, info["build_tensor"], f"{name}: bra_ket_sym {info['bra_ket_sym']!r} is not 0, 1 or -1",
+                    fn=f"intermediates:{name}._build_tensor", key=f"{name} bra_ket_sym value")
     ctx.floor(rule, "declared symmetry operations checked", n, 25)
 
 
